@@ -11,7 +11,7 @@ from .. import models
 from ..core import RunResult, adigest, mix
 from ..driver import pristine_library_state
 from .hist_common import SAME, TAU, clone, quiet
-from .hist_common import call_value as _call_value
+from .hist_common import call_value as _call_value, maybe_interrupted_call
 
 NAME = "B8"
 PROPERTY = "C08"
@@ -22,7 +22,7 @@ COMPONENTS = {"real": ["toqito.nonlocal_games.XORGame (constructor, quantum_valu
 RULE = ("one run = one XORGame object, sometimes with a second object of the same shape used in between (1..5 x 1..5 questions, rectangular, zero rows/columns, uniform / skewed distributions, disconnected question graphs with a satisfiable and a frustrated component, predicate dtype int/bool/float/int8/uint8/uint64, containers ndarray / np.matrix / Fortran order / strided view, the caller editing a converted game it was handed, reps 1..3, tol given or defaulted) and 3..6 "
         "value-method calls in seeded order with repetition; reference = rigorous bracket [bias of explicit unit vectors, dual-feasible certificate] from own SDPs, +/-1 enumeration, LP; "
         "non-trivial = >=2 distinct methods, one repeated, and the game is not won classically with certainty; distinct = distinct digest of (game, operation sequence)")
-SHRINK_ORDER = ["config", "game", "ops"]
+SHRINK_ORDER = ["config", "game", "ops", "intr"]
 KG = 1.7823
 
 
@@ -269,6 +269,7 @@ def run(cs, tier, run_index):
                     res.violate("C08.op.raises", op=["deepcopy", "pickle"][how_c], exc=type(e).__name__, msg=str(e)[:200], position=k, **meta)
                     break
                 res.probe("object_cloned")
+            maybe_interrupted_call(cs, res, op_fn(holder["game"], nm))
             out = call_value(op_fn(holder["game"], nm), res, nm)
             res.log.add("op", k, nm, out[1] if out[0] == "ok" else out[:2])
             res.checks_sim += 1
